@@ -575,7 +575,11 @@ func markdownEscape(w strWriter, s string, allowHTML bool) error {
 		case ' ', '\t':
 			if 0 < i && i < len(s)-1 {
 				if c := s[i+1]; c != ' ' && c != '\t' {
-					continue
+					// A tab at the beginning of a line would start an
+					// indented code block.
+					if p := s[i-1]; s[i] == ' ' || p != '\n' && p != '\r' {
+						continue
+					}
 				}
 			}
 			esc = nbsp
